@@ -57,6 +57,10 @@ fn main() {
         Some("run-one") => cmd_run_one(&args[1..]),
         Some("hashes") => cmd_hashes(&args[1..]),
         Some("selftest") => cmd_selftest(&args[1..]),
+        Some("chain-bench") => {
+            chain_bench(args.get(1).and_then(|s| s.parse().ok()).unwrap_or(20));
+            0
+        }
         _ => {
             eprintln!("usage: rsdd-sim check|replay|run-one|hashes|selftest ...");
             2
@@ -688,5 +692,32 @@ fn cmd_selftest(args: &[String]) -> i32 {
     } else {
         println!("determinism: all worlds replay bit-identically (event logs include raw node addresses)");
         0
+    }
+}
+
+/// diagnostic: how long does rsdd take to build OR_i (x_p(2i) & x_p(2i+1)) along the order, top-down, under a shuffled order?
+pub fn chain_bench(n: usize) {
+    use rsdd::builder::bdd::RobddBuilder;
+    use rsdd::builder::cache::AllIteTable;
+    use rsdd::builder::BottomUpBuilder;
+    use rsdd::repr::{BddPtr, VarLabel, VarOrder};
+    for shuffled in [false, true] {
+        rsdd::verif::arm(rsdd::verif::Config { table_capacity: Some(4), ..Default::default() });
+        let mut perm: Vec<usize> = (0..n).collect();
+        if shuffled {
+            rng::Rng::new(4751 ^ 0x0bde).shuffle(&mut perm);
+        }
+        let labels: Vec<VarLabel> = perm.iter().map(|v| VarLabel::new(*v as u64)).collect();
+        let b: &'static RobddBuilder<'static, AllIteTable<BddPtr<'static>>> = Box::leak(Box::new(RobddBuilder::new(VarOrder::new(&labels))));
+        let t0 = std::time::Instant::now();
+        let mut acc = b.false_ptr();
+        let mut i = 5;
+        while i + 1 < n {
+            let (va, vb) = (b.order().var_at_level(i), b.order().var_at_level(i + 1));
+            let t = b.and(b.var(va, true), b.var(vb, true));
+            acc = b.or(acc, t);
+            i += 2;
+        }
+        println!("n={n} shuffled={shuffled}: {:?}, {} recursive calls", t0.elapsed(), b.num_recursive_calls());
     }
 }
